@@ -157,6 +157,20 @@ fn run_bit(path: &str, h: u8, n: u32, data: &[u8], second: &[u8]) -> Option<(Str
             let mut caret = Caret::default();
             let mut p = icy_engine::ansi::Parser::default();
             let mut errs = Vec::new();
+            // the font sequence is not always the first string sequence the parser sees: a hyperlink (OSC 8), a palette entry
+            // (OSC 4), an application string (APS), a sixel, an earlier font or a macro definition may come first
+            let before: &str = match data.get(2).copied().unwrap_or(0) % 8 {
+                1 => "\x1b]8;;http://example.com\x1b\\link\x1b]8;;\x1b\\",
+                2 => "\x1b]4;1;rgb:aa/00/55\x1b\\",
+                3 => "\x1b_application string\x1b\\",
+                4 => "\x1bPq#1;2;100;0;0#1~~\x1b\\",
+                5 => "\x1bP1;0;0!zmacro text\x1b\\",
+                6 => "\x1bPCTerm:Font:9:AAAA\x1b\\",
+                _ => "",
+            };
+            for ch in before.chars() {
+                let _ = p.print_char(&mut buf, 0, &mut caret, ch);
+            }
             for ch in seq.chars() {
                 if let Err(e) = p.print_char(&mut buf, 0, &mut caret, ch) {
                     errs.push(e.to_string());
@@ -181,6 +195,18 @@ fn run_bit(path: &str, h: u8, n: u32, data: &[u8], second: &[u8]) -> Option<(Str
             let variant = data.iter().take(8).fold(0u8, |a, b| a.wrapping_mul(31).wrapping_add(*b)) % 4;
             if variant & 1 == 1 && path != "icy" {
                 d.palette = Some((0..16).map(|i| (data[(3 * i) % data.len()] & 0xFC, data[(3 * i + 1) % data.len()] & 0xFC, data[(3 * i + 2) % data.len()] & 0xFC)).collect());
+            }
+            // the picture's font need not sit in slot 0: for the single-font formats sometimes every cell is on page 3, the
+            // font under test is in slot 3 and slot 0 holds the stock font (the writer has to embed the font the cells use)
+            let moved = matches!(path, "idf" | "adf" | "xb1") && data.get(3).copied().unwrap_or(0) % 3 == 0 && variant & 2 == 0;
+            if moved {
+                d.font_mode = 0;
+                d.fonts[0].slot = 3;
+                d.fonts.push(FontD { slot: 0, name: "stock".into(), height: 16, builtin: Some(0), data: vec![], sauce_name: None });
+                for c in d.layers[0].cells.iter_mut() {
+                    c.fp = 3;
+                }
+                d.layers[0].default_font_page = 3;
             }
             let with_sauce = variant & 2 == 2;
             if with_sauce {
@@ -595,7 +621,7 @@ impl Prop for C17 {
         "C17"
     }
     fn rule(&self) -> &'static str {
-        "bitmap fonts (8 x 1..=32, 256 glyphs, 512 for PSF2; all-zero / all-one / random glyph bytes, some starting with a PSF magic number; every built-in page 0..=42 and every SAUCE font) are sent through PSF2 bytes, raw data (create_8, from_basic, from_bytes), the DCS CTerm:Font sequence fed to the real ANSI parser, and embedding in XBin (1 and 2 fonts), ADF, IDF and IcyDraw files written and loaded by the engine (with and without a custom palette in the same file, with and without a SAUCE record that names the stock font 'IBM VGA' while the embedded glyphs differ; IcyDraw also under empty, non-ASCII and long font names); size, glyph count and every glyph must be bit-identical. TheDraw fonts (outline/block/colour, 0..=94 glyphs up to 30x12, names 0..=12, spacing 0..=40, bundles of 1..=34) are written with as_tdf_bytes / create_font_bundle, checked by an independent TDF reader in the harness (writer side) and re-read with from_tdf_bytes (reader side, glyph table via hook H5). distinct_nontrivial = distinct (path, height, glyph count, data class) / (bundle size, glyph layout) fingerprints"
+        "bitmap fonts (8 x 1..=32, 256 glyphs, 512 for PSF2; all-zero / all-one / random glyph bytes, some starting with a PSF magic number; every built-in page 0..=42 and every SAUCE font) are sent through PSF2 bytes, raw data (create_8, from_basic, from_bytes), the DCS CTerm:Font sequence fed to the real ANSI parser (also after an OSC 8 / OSC 4 / APS / sixel / macro / other font sequence on the same parser), and embedding in XBin (1 and 2 fonts), ADF, IDF and IcyDraw files written and loaded by the engine (with and without a custom palette in the same file, for IDF / ADF / one-font XBin also with the font in slot 3, every cell on page 3 and the stock font in slot 0, with and without a SAUCE record that names the stock font 'IBM VGA' while the embedded glyphs differ; IcyDraw also under empty, non-ASCII and long font names); size, glyph count and every glyph must be bit-identical. TheDraw fonts (outline/block/colour, 0..=94 glyphs up to 30x12, names 0..=12, spacing 0..=40, bundles of 1..=34) are written with as_tdf_bytes / create_font_bundle, checked by an independent TDF reader in the harness (writer side) and re-read with from_tdf_bytes (reader side, glyph table via hook H5). distinct_nontrivial = distinct (path, height, glyph count, data class) / (bundle size, glyph layout) fingerprints"
     }
     fn meta(&self, ctx: &Ctx) -> Value {
         json!({"floor_evaluations": 1000, "floor_distinct": ctx.tier.pick(800u64, 5000u64),
